@@ -70,7 +70,7 @@ def oracle(history, steps):
                 all(isinstance(d, dict) for d in st.op[1]):
             fails.extend(check_batch(history, steps, i))
         prev = cur
-        if fails:
+        if any(l not in known_labels for (_, l, _) in fails) or len(fails) > 50:
             break
     return fails
 
